@@ -29,7 +29,7 @@ func atomOfKind(kind string, p Path) Atom {
 	switch kind {
 	case "in", "containsAll", "containsSome":
 		a.Vals = []string{"a", "b"}
-	case "lessThanProperty", "lessThanOrEqualsToProperty", "equalsToProperty", "disjointWithProperty":
+	case "lessThanProperty", "lessThanOrEqualsToProperty", "equalsToProperty", "disjointWithProperty", "moreThanProperty", "moreThanOrEqualsToProperty":
 		q := PP("p1", false)
 		a.Other = &q
 	case "datatype":
@@ -39,9 +39,6 @@ func atomOfKind(kind string, p Path) Atom {
 	case "uniqueValues":
 		t := true
 		a.UArg = &t
-	case "moreThanProperty", "moreThanOrEqualsToProperty":
-		q := PP("p1", false)
-		a.Other = &q
 	default:
 		a.Arg = i64p(1)
 	}
@@ -57,7 +54,7 @@ func genC07(g *G, n int, out io.Writer, full bool) {
 		id++
 	}
 	// every constraint kind x every path shape (alone, negated, and inside a nested constraint)
-	allKinds := append(append([]string{}, atomKinds...), "moreThanProperty", "moreThanOrEqualsToProperty")
+	allKinds := append([]string{}, atomKinds...)
 	for _, k := range allKinds {
 		for si, sh := range pathShapes {
 			prof := ProfileSpec{Atoms: []Atom{atomOfKind(k, sh)}, Paths: []Path{sh}}
